@@ -425,8 +425,10 @@ def textFromEventDict(eventDict: EventDict) -> Optional[str]:
                 why = "Unhandled Error"
             try:
                 traceback = cast(failure.Failure, eventDict["failure"]).getTraceback()
-            except Exception as e:
-                traceback = "(unable to obtain traceback): " + str(e)
+                if not isinstance(traceback, str):
+                    traceback = reflect.safe_str(traceback)
+            except BaseException as e:
+                traceback = "(unable to obtain traceback): " + reflect.safe_str(e)
             text = why + "\n" + traceback
         elif "format" in eventDict:
             text = _safeFormat(eventDict["format"], eventDict)
